@@ -113,6 +113,9 @@ func runModel(model string, scripts [][]string) ([][]string, error) {
 	for _, sc := range scripts {
 		in.WriteString("reset\n")
 		for _, l := range sc {
+			if isOracleLine(l) {
+				continue
+			}
 			in.WriteString(l)
 			in.WriteByte('\n')
 		}
@@ -134,6 +137,10 @@ func runModel(model string, scripts [][]string) ([][]string, error) {
 		}
 		res[i] = make([]string, len(script))
 		for j := range script {
+			if isOracleLine(script[j]) {
+				res[i][j] = oracleEcho
+				continue
+			}
 			if !sc.Scan() {
 				return nil, fmt.Errorf("model driver: short output at case %d line %d", i, j)
 			}
@@ -143,8 +150,17 @@ func runModel(model string, scripts [][]string) ([][]string, error) {
 	return res, nil
 }
 
+// Lines that start with "oracle " are executed on the real code only (Go-side property
+// oracles: failing-input search and support for the theorems); they have no model side.
+const oracleEcho = "(oracle-only line: no model side)"
+
+func isOracleLine(l string) bool { return strings.HasPrefix(l, "oracle ") }
+
 func firstDiff(s Stream, a, b []string) int {
 	for i := range a {
+		if i < len(b) && b[i] == oracleEcho {
+			continue
+		}
 		if i >= len(b) || !s.Same(a[i], b[i]) {
 			return i
 		}
